@@ -207,7 +207,7 @@ def ops_for(pattern):
 def bounds(tier):
     b = dict(depth_full_alphabet=2, alphabet={p: len(ops_for(p)) for p in PATTERNS}, keys=len(KEYS))
     if tier == "thorough":
-        b.update(depth_reduced_alphabet=3, reduced_alphabet={p: len(reduced(ops_for(p))) for p in PATTERNS})
+        b.update(depth_reduced_alphabet=3, reduced_alphabet={p: len(reduced(ops_for(p))) for p in ("all2", "232f")}, later_steps_alphabet={p: len(reduced(ops_for(p))[::4]) for p in ("all2", "232f")})
     return b
 
 
@@ -233,7 +233,7 @@ def units(tier, seed):
         ops = ops_for(pattern)
         for k in range(len(ops)):
             out.append(dict(pattern=pattern, first=k, depth=2, alphabet="full"))
-        if tier == "thorough":
+        if tier == "thorough" and pattern in ("all2", "232f"):
             red = reduced(ops)
             for k in range(len(red)):
                 out.append(dict(pattern=pattern, first=k, depth=3, alphabet="reduced"))
@@ -410,9 +410,12 @@ def canon(st):
 def run_unit(u):
     pattern = u["pattern"]
     ops = ops_for(pattern)
+    first = ops[u["first"]] if u.get("alphabet") != "reduced" else reduced(ops)[u["first"]]
     if u.get("alphabet") == "reduced":
-        ops = reduced(ops)
-    r = bfs.explore(lambda: build_state(pattern), ops, apply_op, canon, u["depth"], prefix=[ops[u["first"]]])
+        # depth 3: the first operation ranges over the reduced alphabet (one right-hand side of each class per key),
+        # the second and third over every fourth member of it
+        ops = reduced(ops)[::4]
+    r = bfs.explore(lambda: build_state(pattern), ops, apply_op, canon, u["depth"], prefix=[first])
     for f in r["fails"]:
         f["case"] = dict(pattern=pattern, history=f["case"]["history"])
     res = dict(evals=r["transitions"], nontrivial=r["transitions"], outcomes=r["outcomes"], fails=r["fails"], states=r["states"], transitions=r["transitions"], traces=r["traces"], samples=[])
